@@ -53,6 +53,21 @@ theorem init_panics_iff {ic : InitChoice} (hwf : D.WF K) (hadm : InitAdm D P ic)
     · intro ⟨e, he⟩; rw [hs'] at he; cases he
     · intro h; rw [hw] at h; cases h
 
+/-- The background clause in the form the code maintains it: the background counts are the cached
+    symbol counts of the active sequences minus their window counts (no truncation: stated as
+    `background + windows = cached counts`). -/
+theorem bg_is_counts_minus_windows {s : State K} (hwf : D.WF K) (hinv : Inv D P.w s) (c : Nat) (hc : c < K) :
+    s.bg.getD c 0 + sumTo D.n (fun i => if act s i = true then winCount (D.seq i) (st s i) P.w c else 0) =
+      sumTo D.n (fun i => if act s i = true then (D.cnt i).getD c 0 else 0) := by
+  rw [hinv.bg c hc]
+  unfold alignBg
+  rw [← sumTo_add]
+  apply sumTo_congr
+  intro i hi
+  by_cases ha : act s i = true
+  · rw [if_pos ha, if_pos ha, if_pos ha, hwf.cnt i hi c hc, symCount_eq _ (st s i) P.w c (hinv.inside i hi)]
+  · rw [if_neg ha, if_neg ha, if_neg ha]
+
 /-! ### the invariant is preserved by every step, in both modes -/
 
 /-- `Inv s → Inv (step s c).1` for every admissible choice. -/
